@@ -221,32 +221,35 @@ Section ShardProofs.
   Lemma total_app s1 s2 : total (s1 ++ s2) = total s1 + total s2.
   Proof. unfold total. induction s1; simpl; lia. Qed.
 
-  Lemma total_pos_cons c l : 0 < size c -> Forall (fun t => 0 < size t) l -> 0 < total (l ++ [c]).
-  Proof. intros Hc Hl. rewrite total_app. simpl. induction Hl; simpl; lia. Qed.
-
-  (* stated for tensors of positive size: with a zero-size tensor first, the Python test
-     `current_shard_size > 0` lets an oversized tensor join it (see st_shard_zero_then_big) *)
   Lemma st_shard_go_limit ts : forall cur ssize maxb,
-    Forall (fun t => 0 < size t) ts -> Forall (fun t => 0 < size t) cur ->
     ssize = total (rev cur) ->
     (total (rev cur) <= maxb \/ (length cur <= 1)%nat) ->
     Forall (fun s => total s <= maxb \/ (length s <= 1)%nat) (st_shard_go size ts cur ssize maxb).
   Proof.
-    induction ts as [|t r IH]; intros cur ssize maxb Hts Hcur Hs Hc; simpl.
+    induction ts as [|t r IH]; intros cur ssize maxb Hs Hc; simpl.
     - constructor; [|constructor]. rewrite rev_length. exact Hc.
-    - inversion Hts as [|? ? Ht Hr]; subst.
-      destruct (_ && _) eqn:E.
+    - destruct (_ && _) eqn:E.
       + constructor; [rewrite rev_length; exact Hc|].
-        apply IH; [assumption | constructor; [assumption|constructor] | simpl; lia | right; simpl; lia].
+        apply IH; [simpl; lia | right; simpl; lia].
       + assert (Htot : total (rev (t :: cur)) = total (rev cur) + size t).
         { simpl. rewrite total_app. simpl. lia. }
-        apply IH; [assumption | constructor; assumption | lia |].
+        apply IH; [lia|].
         rewrite Htot. apply andb_false_iff in E. destruct E as [E|E]; [left; lia|].
-        destruct cur as [|c cur']; [right; simpl; lia|].
-        exfalso. inversion Hcur; subst.
-        assert (0 < total (rev (c :: cur'))).
-        { simpl. apply total_pos_cons; [assumption|]. apply Forall_rev. assumption. }
-        lia.
+        right. destruct cur; [simpl; lia | discriminate].
+  Qed.
+
+  Lemma st_shard_go_nonempty ts : forall cur ssize maxb,
+    (cur <> [] \/ ts <> []) -> Forall (fun s => s <> []) (st_shard_go size ts cur ssize maxb).
+  Proof.
+    induction ts as [|t r IH]; intros cur ssize maxb H; simpl.
+    - constructor; [|constructor]. destruct H as [H|H]; [|congruence].
+      intros E. apply H. apply (f_equal (@rev A)) in E. rewrite rev_involutive in E. exact E.
+    - destruct (_ && _) eqn:E.
+      + constructor.
+        * apply andb_prop in E. destruct E as [_ E]. destruct cur; [discriminate|].
+          intros E'. apply (f_equal (@length A)) in E'. rewrite rev_length in E'. discriminate.
+        * apply IH. left. discriminate.
+      + apply IH. left. discriminate.
   Qed.
 End ShardProofs.
 
